@@ -162,6 +162,13 @@ def gen_api_cases(ctx, pools):
                         for n in ((3, 37) if quick else (1, 4, 16, 37, 150)):
                             pats = [rng.choice(pool) for _ in range(n * ch)]
                             cases.append(G.Case("api-%s-%s-%s-ii-%s" % (e, it, ot, hist), n, ch, rng.next(), 0, pats, it, "api"))
+                # every other way of asking for this engine class ("-qRRFF": recipe, quality flags): the 32-bit engines through
+                # SOXR_QQ / SOXR_LQ / 20-bit recipe, the 64-bit ones through the 32-bit recipe or SOXR_DOUBLE_PRECISION on any recipe
+                for qsel in (("q0000", "q0100", "q0300") if e == "f" else ("q0010", "q0410", "q0700", "q0110")):
+                    for ch in (1, 2):
+                        n = 37 if ch == 1 else 16
+                        pats = [rng.choice(pool) for _ in range(n * ch)]
+                        cases.append(G.Case("api-%s-%s-%s-ii-%s" % (e, it, ot, qsel), n, ch, rng.next(), 0, pats, it, "api"))
                 # the whole pool once per pair and engine (interleaved, mono)
                 step = 1 if not quick else max(1, len(pool) // 6000)
                 sub = pool[::step]
